@@ -1,4 +1,5 @@
 import Syzgy.Lemmas.LshSound
+import Syzgy.Lemmas.LshComplete
 /-!
 # C04 — approximate search is sound
 -/
@@ -17,6 +18,27 @@ theorem lsh_sound (searchK K R maxRadius : Nat) (forest : List Tree) (lookup : N
     List.Pairwise (fun a b => a.dist ≤ b.dist) res ∧ (res.map (·.id)).Nodup ∧
     (∀ c ∈ res, lookup c.id = some c ∧ c.acc = true ∧ (R > 0 → c.dist ≤ R)) ∧ (R = 0 → res.length ≤ K) :=
   search_sound searchK K R maxRadius forest lookup hlk hpDist hpRight
+
+/-- **A K-nearest search returns at least one result whenever some live document passes the filter.**
+    For every forest shape (any depth, ids repeated across trees), every hyperplane oracle, every
+    early-stop budget `search_k > 0` and every K > 0: if every listed id is live (the index invariant of
+    C05) and some listed document passes the filter, the default-precision search returns a non-empty
+    list. `hprio` says that no hyperplane distance exceeds the initial radius; the implementation starts
+    with +Inf (regenerated fact `Tie.Search.lsh_initial_radius`), so it holds for every non-NaN distance.
+    (With the former initial radius `MaxFloat64` the hypothesis failed for overflowing distances, and so
+    did the implementation: fixed in /repo 93c5d62.) -/
+theorem knn_finds_something (searchK K maxRadius : Nat) (hK : 0 < K) (hsK : 0 < searchK) (forest : List Tree)
+    (lookup : Nat → Option Cand) (hpDist : H → Nat) (hpRight : H → Bool) (hprio : ∀ h, hpDist h ≤ maxRadius)
+    (hlive : ∀ t ∈ forest, ∀ id ∈ t.ids, ∃ c, lookup id = some c)
+    (hmatch : ∃ t ∈ forest, ∃ id ∈ t.ids, ∃ c, lookup id = some c ∧ c.acc = true) :
+    (search searchK K 0 maxRadius forest lookup hpDist hpRight).1 ≠ [] :=
+  search_nonempty searchK K maxRadius hK hsK forest lookup hpDist hpRight hprio hlive hmatch
+
+/-- the node queue (a transliteration of `container/heap`) neither loses nor duplicates a node -/
+theorem node_queue_is_a_multiset (a : Array PQItem) (x : PQItem) :
+    (hpush a x).Perm (a.push x) ∧
+    ((a.size = 0 ∧ hpop a = none) ∨ (∃ y a', hpop a = some (y, a') ∧ a.Perm (a'.push y))) :=
+  ⟨hpush_perm a x, hpop_spec a⟩
 
 /-- sanity: a forest with a duplicated and a dead id (7) still yields a sound result -/
 example :
